@@ -546,6 +546,61 @@ pub fn c13(o: &mut Out, seed: u64, sc: &Scale) {
             probes(w, &cfg);
         });
     }
+    // --- accept queue: several clients complete their handshakes (in a random order) before the
+    // server accepts; more clients than the backlog; FIFO order and the backlog bound are checked.
+    for i in 0..(sc.walks / 5).max(20) {
+        let mut r = rng.fork();
+        let s = r.next();
+        let backlog = r.range(1, 4) as usize;
+        let cfg = Cfg { backlog, reclaim: true, ..Cfg::default() };
+        let n = backlog as u32 + r.range(0, 2) as u32;
+        let lip = if i % 2 == 0 { host_v4(1) } else { ip("any4") };
+        o.case("queue", s, &cfg, |w| {
+            w.apply(Op::Listen { h: 1, l: 0, ip: lip, port: 9000 });
+            for c in 0..n {
+                w.apply(Op::Connect { h: 0, c, s: c, ip: host_v4(1), port: 9000 });
+            }
+            // handshake, delivering each round's packets in a random order
+            for _ in 0..4 {
+                eg(w);
+                let mut ids: Vec<u64> = w.wire.iter().map(|p| p.id).collect();
+                for i in (1..ids.len()).rev() {
+                    let j = r.below(i as u64 + 1) as usize;
+                    ids.swap(i, j);
+                }
+                for id in ids {
+                    w.apply(Op::Deliver { id });
+                }
+                w.apply(Op::Stat);
+            }
+            for c in 0..n {
+                if w.connecting.contains_key(&c) {
+                    w.apply(Op::CPoll { c, s: c });
+                }
+            }
+            // accept everything that is ready, then let the late-comers (SYN retransmits) in
+            let mut next = 100u32;
+            for _ in 0..3 {
+                for _ in 0..(n + 1) {
+                    if w.apply(Op::Accept { l: 0, s: next })[0].starts_with("ok") {
+                        next += 1;
+                    }
+                }
+                for _ in 0..4 {
+                    eg(w);
+                    deliver_all(w);
+                }
+                w.apply(Op::Stat);
+                for c in 0..n {
+                    if w.connecting.contains_key(&c) {
+                        w.apply(Op::CPoll { c, s: c });
+                    }
+                }
+            }
+            epilogue_reclaim(w, &cfg, s);
+            probes(w, &cfg);
+        });
+    }
     // --- many sequential connections: ports and 4-tuples get reused.
     let n_seq = if sc.thorough { 20 } else { 4 };
     for k in 0..n_seq {
@@ -679,8 +734,10 @@ fn c13_walk(w: &mut World, cfg: &Cfg, r: &mut Rng) {
                 let l = *r.pick(&ls);
                 w.apply(Op::LDrop { l });
             }
-        } else if k < 80 {
+        } else if k < 77 {
             eg(w);
+        } else if k < 80 {
+            w.apply(Op::Stat);
         } else {
             // wire action on a random in-flight packet
             if !w.wire.is_empty() {
